@@ -318,10 +318,14 @@ func (e *Env) GoCheck(src []byte, pkgFiles Files) (class, msg string) {
 			}
 		}
 	}
+	// only errors located in the WRITTEN file count: the package's own .go files are not
+	// compiled by XGo (their validity is the Go compiler's business, not this property's)
 	var first error
 	conf := types.Config{Importer: e, Error: func(err error) {
-		if first == nil {
-			first = err
+		if te, ok := err.(types.Error); ok && first == nil {
+			if fset.Position(te.Pos).Filename == "xgo_autogen.go" {
+				first = err
+			}
 		}
 	}}
 	conf.Check(f.Name.Name, fset, files, nil)
